@@ -74,7 +74,7 @@ def _alloc(m: EffectMachine, op, vals, core):
     m.allocs.append((site, tuple(sizes)))
 
 
-@handler(memref.CastOp)
+@handler(memref.CastOp, memref.MemorySpaceCastOp)
 def _cast(m, op, vals, core):
     vals[op.dest] = m.get(vals, op.source)
 
